@@ -136,6 +136,17 @@ pub fn record(args: &[String]) {
     let mut f = Repo::new(3);
     f.apply("tag", &to_cps("v0.3.0")).unwrap();
     repos.push(f);
+    // a long history: the version tag is 130 commits behind HEAD and every other commit carries a
+    // non-version tag (what git prints for it is long: anything that caps, pages or abbreviates output shows)
+    let mut l = Repo::new(0);
+    l.apply("tag", &to_cps("v1.2.3")).unwrap();
+    for i in 0..130 {
+        l.apply("commit", &json!([])).unwrap();
+        if i % 2 == 0 {
+            let _ = l.git(&["tag", &format!("build-{i}")], None);
+        }
+    }
+    repos.push(l);
     let ins = inputs(&repos);
     let other = std::env::temp_dir().join(format!("zv-cwd-{}", std::process::id()));
     std::fs::create_dir_all(&other).unwrap();
@@ -146,7 +157,10 @@ pub fn record(args: &[String]) {
         // the first two runs of every input are the plain environment twice (repeatability)
         let (tz, loc) = if *j < 2 { ("UTC", "C") } else { (TZS[rng.gen_range(0..TZS.len())], LOCALES[rng.gen_range(0..LOCALES.len())]) };
         let mut env: Vec<(String, String)> = vec![("TZ".into(), tz.into()), ("LANG".into(), loc.into()), ("LC_ALL".into(), loc.into())];
-        if *j >= 2 && rng.gen_bool(0.5) {
+        if *j == 2 {
+            // the third run of every input: debug logging on, nothing else changed
+            env.push(("RUST_LOG".into(), "debug".into()));
+        } else if *j >= 2 && rng.gen_bool(0.5) {
             for (k, val) in [("RUST_BACKTRACE", "1"), ("NO_COLOR", "1"), ("HOME", "/nonexistent"), ("PAGER", "cat"), ("COLUMNS", "20"), ("ZERV_SOMETHING", "x"), ("SOURCE_DATE_EPOCH", "1"),
                            // logging goes to stderr: turning it up, down or off must not change stdout
                            ("RUST_LOG", ["trace", "zerv=debug", "off", "garbage=,,"][rng.gen_range(0..4)]), ("ZERV_FORCE_RUST_LOG_OFF", "1"),
